@@ -434,3 +434,75 @@ def r9_7(rep):
         edge = [x for x in vk.calls(lambda n: n["k"] == "Call" and (n.get("callee") or "").endswith("Edge::new"))]
         rep.check(bool(edge) and [strip(a).get("name") for a in edge[0]["args"]] == [p.get("name") for p in vk.params[1:3]], "visit:edge-passed-to-predicate",
                   "the predicate sees (target, kind) of this very edge", vk.loc(vk.root))
+
+
+# kinds that never get a definition of their own, have outgoing edges, and may be left out of the unconditional set (with reason)
+UNCOND_EXEMPT = {"Vector": "vector elements are arithmetic builtins, which need no definition"}
+
+
+@RULES.rule("R9.8", "types that are always spelled out (no definition of their own) are traced even when matched by an opaque pattern", floor=5)
+def r9_8(rep):
+    """An array, pointer, reference, function type or resolved type ref is never emitted as an item: every use spells it out
+    (`[Elem; 4]`, `*mut Elem`).  `--opaque-type '.*'` also matches their synthetic names; if `Item::trace` stopped there the element
+    type would be named but never generated.  `Type::should_be_traced_unconditionally` must therefore contain every kind for which
+    `Type::codegen` emits nothing and `Type::trace` has an edge."""
+    prog = rep.prog
+    graph = tg.TraceGraph(prog)
+    rep.need(graph.uncond, "Type::should_be_traced_unconditionally")
+    tc = rep.need(prog.impl_fn("codegen::CodeGenerator", "ir::ty::Type", "codegen"), "<Type as CodeGenerator>::codegen")
+    nocode = None
+    for m in tc.walk():
+        if m["k"] == "Match" and "Type::kind" in tc.canon(m["scrut"], 3):
+            for arm in m["arms"]:
+                real = [x for x in tc.walk(arm["body"]) if x["k"] in ("Call", "MCall") and not tc.macro_name(x)]
+                ks = {v[len(TYPEKIND):] for v in pat_variants(arm["pat"]) if v.startswith(TYPEKIND)}
+                if not real and len(ks) > 3:
+                    nocode = ks
+            break
+    rep.need(nocode, "the no-op arm of Type::codegen")
+    tt = rep.need(prog.impl_fn(tg.TRACE_TRAIT, "ir::ty::Type", "trace"), "<Type as Trace>::trace")
+    with_edges = set()
+    for m in tt.walk():
+        if m["k"] == "Match" and "Type::kind" in tt.canon(m["scrut"], 3):
+            for arm in m["arms"]:
+                calls = [x for x in tt.walk(arm["body"]) if x["k"] == "MCall" and (x.get("trait") in (tg.TRACER, tg.TRACE_TRAIT))]
+                if calls:
+                    with_edges |= {v[len(TYPEKIND):] for v in pat_variants(arm["pat"]) if v.startswith(TYPEKIND)}
+            break
+    rep.need(with_edges, "arms of Type::trace that emit edges")
+    for k in sorted(nocode & with_edges):
+        if k in UNCOND_EXEMPT:
+            rep.ok("spelled-out-kind-traced:%s" % k, "exempt: " + UNCOND_EXEMPT[k])
+            continue
+        rep.check(k in graph.uncond, "spelled-out-kind-traced:%s" % k,
+                  "TypeKind::%s is never defined as an item and is spelled through to its inner type, so it must be traced even when "
+                  "an opaque pattern matches it (should_be_traced_unconditionally lacks it)" % k, tt.loc(tt.root))
+    rep.note("traced-unconditionally", sorted(graph.uncond))
+
+
+@RULES.rule("R9.9", "an unnamed enum is a root through its variants wherever it sits in a module; no other condition", floor=3)
+def r9_9(rep):
+    """`--allowlist-var 'ns::NS_A'` selects the unnamed enum that declares NS_A.  The only requirements are: the item is an enum,
+    it has no name, and its parent is a module.  Replacing the parent test by `is_toplevel` (a codegen notion that is false inside
+    non-root modules with --enable-cxx-namespaces) silently drops such roots."""
+    prog = rep.prog
+    b = rep.need(prog.fn(CTX + "::compute_allowlisted_and_codegen_items"), "compute_allowlisted_and_codegen_items")
+    anys = [c for c in b.calls(lambda n: n["k"] == "MCall" and n["name"] == "any") if "Enum::variants" in b.canon(c["recv"], 6)]
+    if not rep.check(len(anys) == 1, "variant-scan", "one scan over the variants of an unnamed enum (found %d)" % len(anys), b.loc(b.root)):
+        return
+    import qq
+    ALLOWED = ("allowlisted_", "allowlist_recursively", "Item::is_module", "TypeKind::Enum", "Type::name", "is_stdint_type", "arm:",
+               "Annotations::use_instead_of", "is_enabled_for_codegen", "RegexSet::matches", "RegexSet::is_empty", "let ")
+    extra = []
+    def from_assert(node):
+        nodes = [node] + list(b.ancestors(node)) if isinstance(node, dict) and "_i" in node else []
+        return any(b.macro_name(x) in ("assert", "assert_eq", "assert_ne", "debug_assert", "debug_assert_eq") for x in nodes)
+
+    for a, pol, node in qq.guard_atoms(b, anys[0]):
+        if a.startswith("letelse:") or from_assert(node):
+            continue
+        if not any(x in a for x in ALLOWED):
+            extra.append(("" if pol else "!") + a[:90])
+    rep.check(not extra, "unnamed-enum-root:no-extra-condition", "conditions other than enum / unnamed / parent-is-a-module: %s" % extra, b.loc(anys[0]))
+    pos = [a for a, pol, node in qq.guard_atoms(b, anys[0]) if "Item::is_module" in a and pol]
+    rep.check(bool(pos), "unnamed-enum-root:parent-is-module", "the parent of the enum must be a module (any module)", b.loc(anys[0]))
